@@ -345,6 +345,37 @@ Definition add_unprocessed_module (s : state) (md : id) : option state :=
   end.
 
 (* ---- Documentable.reparent ---- *)
+(* the statements after `self.parent = self.parentMod = new_parent; self.name = new_name`, as a function of the store
+   st2 these two assignments produce *)
+Definition reparent_tail (s : state) (o newparent : id) (newname : name) (oldp : id) (oldname : name) (m1 : registry)
+           (st2 : id -> obj) : option state :=
+  let s2 := mkState st2 (next s) m1 (roots s) (S (depthb s + depthb s)) (unproc s) in
+  (* self._handle_reparenting_post() *)
+  match readd_tree s2 o with
+  | None => None
+  | Some m2 =>
+    (* del old_parent.contents[old_name] *)
+    match adel_strict name_eqb oldname (ocont (st2 oldp)) with
+    | None => None
+    | Some c3 =>
+      let st3 := upd st2 oldp (with_cont (st2 oldp) c3) in
+      (* old_parent._localNameToFullName_map[old_name] = self.fullName() *)
+      match fullpath_f (depthb s2) st3 o with
+      | None => None
+      | Some fno =>
+        let st4 := upd st3 oldp (with_alias (st3 oldp) (aset name_eqb oldname fno (oalias (st3 oldp)))) in
+        (* new_parent.contents[new_name] = self *)
+        let st5 := upd st4 newparent (with_cont (st4 newparent) (cset newname o (ocont (st4 newparent)))) in
+        let s5 := mkState st5 (next s) m2 (roots s) (depthb s2) (unproc s) in
+        (* self._handle_reparenting_post() *)
+        match readd_tree s5 o with
+        | None => None
+        | Some m3 => Some (set_allobj s5 m3)
+        end
+      end
+    end
+  end.
+
 Definition reparent (s : state) (o newparent : id) (newname : name) : option state :=
   (* self._handle_reparenting_pre() *)
   match remove_tree s o with
@@ -356,35 +387,9 @@ Definition reparent (s : state) (o newparent : id) (newname : name) : option sta
     | Some oldp =>
       if negb (can_contain_imports (ocl (store s oldp))) then None
       else
-        let oldname := oname (store s o) in
-        (* self.parent = self.parentMod = new_parent; self.name = new_name *)
-        let st2 := upd (store s) o (with_name (with_parent (store s o) (Some newparent)) newname) in
-        let s2 := mkState st2 (next s) m1 (roots s) (S (depthb s + depthb s)) (unproc s) in
-        (* self._handle_reparenting_post() *)
-        match readd_tree s2 o with
-        | None => None
-        | Some m2 =>
-          (* del old_parent.contents[old_name] *)
-          match adel_strict name_eqb oldname (ocont (st2 oldp)) with
-          | None => None
-          | Some c3 =>
-            let st3 := upd st2 oldp (with_cont (st2 oldp) c3) in
-            (* old_parent._localNameToFullName_map[old_name] = self.fullName() *)
-            match fullpath_f (depthb s2) st3 o with
-            | None => None
-            | Some fno =>
-              let st4 := upd st3 oldp (with_alias (st3 oldp) (aset name_eqb oldname fno (oalias (st3 oldp)))) in
-              (* new_parent.contents[new_name] = self *)
-              let st5 := upd st4 newparent (with_cont (st4 newparent) (cset newname o (ocont (st4 newparent)))) in
-              let s5 := mkState st5 (next s) m2 (roots s) (depthb s2) (unproc s) in
-              (* self._handle_reparenting_post() *)
-              match readd_tree s5 o with
-              | None => None
-              | Some m3 => Some (set_allobj s5 m3)
-              end
-            end
-          end
-        end
+        (* old_name = self.name; self.parent = self.parentMod = new_parent; self.name = new_name *)
+        reparent_tail s o newparent newname oldp (oname (store s o)) m1
+                      (upd (store s) o (with_name (with_parent (store s o) (Some newparent)) newname))
     end
   end.
 
